@@ -27,11 +27,13 @@ INIT9 = [(a, b) for a in (True, False, 'empty', 'same') for b in (True, False, '
 NINIT = len(INIT9)
 FILE_RUN = 'v5_7_0'
 WS_NATURAL = ['calib_unset', 'resolve_unset', 'flist_missing', 'flist_truncated', 'rescore_exists', 'score_raises', 'score_exits',
-              'score_real',
+              'score_real', 'via_window_read+calib_unset', 'via_window_read+flist_missing', 'via_window_read+score_raises',
+              'via_window_read+calib_unset+flist_missing', 'via_window_read+calib_unset+score_raises',
+              'via_window_read+calib_empty+score_raises',
               'calib_empty', 'calib_empty+resolve_unset', 'calib_empty+flist_missing', 'calib_empty+score_raises']
 TI_NATURAL = ['par_missing', 'kw_missing_object', 'kw_missing_run1d', 'kw_missing_minuse', 'kw_nonnumeric_niter',
               'kw_nonnumeric_wavemin', 'hmf_kw_missing_epsilon', 'hmf_kw_bad_nonnegative', 'spplate_missing', 'fibre_absent',
-              'unknown_method', 'dump_unwritable', 'no_eigenobj_table', 'redux_unset']
+              'unknown_method', 'dump_unwritable', 'no_eigenobj_table', 'redux_unset', 'run2d_integer']
 NL_WS, NC_WS = 40, 24            # upper bounds on line events / direct calls of window_score (checked against the recording)
 NL_TI, NC_TI = 560, 320          # ... of template_input + _template_input + template_metadata
 
@@ -220,6 +222,10 @@ class C20(Check):
             d['nonnegative'] = 'yes'
         elif variant == 'unknown_method':
             d['method'] = 'svd'
+        elif variant == 'run2d_integer':
+            # an SDSS-I/II reduction: files are looked for under $SPECTRO_REDUX (unset here), not $BOSS_SPECTRO_REDUX
+            d['run2d'] = '26'
+            d['run1d'] = '26'
         elif variant == 'spplate_missing':
             rows[3] = (9999, 55555, 1)
         elif variant == 'fibre_absent':
@@ -349,30 +355,38 @@ class C20(Check):
             out.expect(rec['nline'] <= NL_WS and rec['ncall'] <= NC_WS, 'harness-error',
                        'recorded path longer than the enumeration bounds (%d lines, %d calls)' % (rec['nline'], rec['ncall']))
             func = factory()
+            if nat and nat.startswith('via_window_read+'):
+                # the scoring entry point reached through its caller in the same module (flist requested, rescored file absent)
+                func = lambda: W.window_read(flist=True, rescore=True)
+                nat = nat[len('via_window_read+'):]
+                out.count('window_score_reached_through_window_read')
             d = os.environ['PHOTO_RESOLVE']
-            if nat and nat.startswith('calib_empty'):
-                # set but empty on entry: a value like any other, to be found again on return
-                os.environ['PHOTO_CALIB'] = ''
-                nat = nat[len('calib_empty+'):]
-            if nat == 'calib_unset':
-                del os.environ['PHOTO_CALIB']
-            elif nat == 'resolve_unset':
-                del os.environ['PHOTO_RESOLVE']
-            elif nat == 'flist_missing':
-                os.remove(os.path.join(d, 'window_flist.fits'))
-            elif nat == 'flist_truncated':
-                with open(os.path.join(d, 'window_flist.fits'), 'r+b') as f:
-                    f.truncate(1000)
-            elif nat == 'rescore_exists':
-                shutil.copy(os.path.join(d, 'window_flist.fits'), os.path.join(d, 'window_flist_rescore.fits'))
-            elif nat == 'score_raises':
-                self._stub.fail = True
-            elif nat == 'score_exits':
-                self._stub.fail = 'exit'
-            elif nat == 'score_real':
-                # the real scoring stage: it builds per-field file names from the SDSS tree variables (none of which is set)
-                # and fails on the first file it cannot open
-                W.sdss_score = self._saved_score
+            # a natural condition may combine several of these, joined by '+'
+            for part in (nat.split('+') if nat else []):
+                if part == 'calib_empty':
+                    # set but empty on entry: a value like any other, to be found again on return
+                    os.environ['PHOTO_CALIB'] = ''
+                elif part == 'calib_unset':
+                    del os.environ['PHOTO_CALIB']
+                elif part == 'resolve_unset':
+                    del os.environ['PHOTO_RESOLVE']
+                elif part == 'flist_missing':
+                    os.remove(os.path.join(d, 'window_flist.fits'))
+                elif part == 'flist_truncated':
+                    with open(os.path.join(d, 'window_flist.fits'), 'r+b') as f:
+                        f.truncate(1000)
+                elif part == 'rescore_exists':
+                    shutil.copy(os.path.join(d, 'window_flist.fits'), os.path.join(d, 'window_flist_rescore.fits'))
+                elif part == 'score_raises':
+                    self._stub.fail = True
+                elif part == 'score_exits':
+                    self._stub.fail = 'exit'
+                elif part == 'score_real':
+                    # the real scoring stage: it builds per-field file names from the SDSS tree variables (none of which is
+                    # set) and fails on the first file it cannot open
+                    W.sdss_score = self._saved_score
+                else:
+                    raise KeyError(part)
             if fault['mode'] in ('line', 'call') and fault['index'] >= rec['n' + fault['mode']]:
                 out.count('index_beyond_recorded_path')
                 return
